@@ -6,6 +6,7 @@ import common
 import gen
 
 N = {"quick": 120, "thorough": 3000}
+LEAN_MODULE = "Pyab.Properties.C14_full"
 
 
 def exec_module(code, name):
